@@ -86,6 +86,11 @@ PAIRS = collections.OrderedDict([
     ("huawei ce", ["huawei_iface_ip_vpn_binding.yaml #1"]),
 ])
 ORDER_VENDORS = ["huawei", "cisco", "arista", "juniper"]
+ORDER_SECOND_MODELS = [("juniper mx", "Juniper MX960", "juniper"), ("routeros", "RouterOS", "routeros"),
+                       ("routeros rb", "MikroTik RB4011iGS+", "routeros")]
+# a RouterOS configuration written against the order of routeros.order (file, snmp, system)
+ROS_TREE = [["system", [["logging", [["add x", []]]]]], ["snmp", [["set a", []], ["community", [["add c", []]]]]],
+            ["file", [["set f", []], ["print file=a", []]]]]
 # the same hand-written pair on two hardware models of one vendor: huawei.rul renders 'trust *' for CE and 'trust' otherwise,
 # so the two jobs have different patches; a rulebook cached under too coarse a key shows as a history-dependent result
 HW_PAIR = {"old": [["interface 10GE1/0/1", [["trust dscp", []]]]], "new": [["interface 10GE1/0/1", [["trust 8021p", []]]]]}
@@ -328,6 +333,12 @@ def build_jobs():
         s = corpus[PAIRS[vendor][0]]
         jobs.append({"kind": "order", "vendor": vendor, "model": s["model"], "sample": PAIRS[vendor][0], "new": s["new"],
                      "id": "order/%s" % vendor, "jk": "order"})
+    # the same ordering job on a second model string of the vendor (vendors that ship only some of the optional rulebook
+    # texts: a per-vendor shortcut in the provider shows on the SECOND model loaded in a process)
+    for label, model, src in ORDER_SECOND_MODELS:
+        tree = ROS_TREE if src == "routeros" else corpus[PAIRS[src][0]]["new"]
+        jobs.append({"kind": "order", "vendor": label, "model": model, "sample": "<hand-written>" if src == "routeros" else PAIRS[src][0],
+                     "new": tree, "id": "order/%s" % label.replace(" ", "-"), "jk": "order"})
     for sj in SYNTH_JOBS:
         vendor, text = SYNTH[sj["text"]]
         j = {"kind": "synth", "vendor": vendor, "model": HW_MODELS[vendor], "rb_text": text, "old": sj["old"], "new": sj["new"],
